@@ -200,7 +200,9 @@ func baseConfig(rng *simcore.RNG, env *simcore.Env) simcore.Op {
 	c["valtx"] = rng.Bool(0.4)
 	c["partition"] = rng.Bool(0.4)
 	crashy := prop == "C04" || prop == "C05" || prop == "C15" || prop == "C18"
-	c["crash"] = (crashy && rng.Bool(0.9)) || (!crashy && rng.Bool(0.25))
+	// C03: "regardless of what happened before that moment" includes crashes and restarts in the
+	// middle of later rounds (the restarted node's timers must be right)
+	c["crash"] = (crashy && rng.Bool(0.9)) || (!crashy && rng.Bool(0.25)) || (prop == "C03" && rng.Bool(0.35))
 	c["crash_rate"] = []int{1, 2, 4}[rng.Intn(3)]
 	c["wal_garbage"] = rng.Bool(0.4)
 	// operators leave statesync.enable = true in the config of a node that has long had state:
